@@ -236,6 +236,13 @@ def check(pm: ProgramModel, ctx: Ctx) -> None:
     kinds_nonlogical(pm, ctx, mb, methods, ev)
     ctcname(pm, ctx)
     history(pm, ctx, mb, methods, lr, split)
+    # the model's listings of constraints by class, asked again after a formula was replaced through the setter, edited in
+    # place, or the list of constraints was reversed / overwritten / inserted into (same rule as C03-FRESH, for the
+    # classification queries)
+    if pm.has_cls("FeatureModel"):
+        from .c03 import fresh_after_edit
+        fresh_after_edit(pm, ctx, pm.cls("FeatureModel"), rule="C18-HISTORY-EDIT", about="constraint",
+                         only=("constraint-formula-replaced", "constraint-formula-edited-in-place", "constraint-list-edited"))
     # report ----------------------------------------------------------------------------------------------
     where = loc(cons.unit.path, cons.node)
     for (rule_, key), n in sorted(oks.items()):
